@@ -234,4 +234,17 @@ example :
   simp [run, step, onCtx, World.ctx?, World.setCtx, World.setCur, World.curOf, World.empty,
     alookup, ainsert, freshCtx, effStack, BlockEnd.isCancel, runTeardown, runBody, removeChild, ctxGetNowait, CState.usable]
 
+/-- `Context.closed` is true from the beginning of teardown: whatever a teardown callback's body does, and after any
+number of callbacks, the flag a callback reads is true. -/
+theorem C13_closed_flag_in_callback (cid : CtxId) (cur : Option CtxId) (x : Ctx) (hs : x.state = .closing) (op : BodyOp) :
+    closedFlag x.state = true ∧ closedFlag (runBodyOp cid cur x op).1.state = true := by
+  rw [(runBodyOp_ext cid cur x op).state, hs]
+  exact ⟨rfl, rfl⟩
+
+theorem C13_closed_flag_during_teardown (cid : CtxId) (cur : Option CtxId) (be : BlockEnd) (st : List Cb) (x : Ctx)
+    (hs : x.state = .closing) :
+    closedFlag (runTeardown cid cur be st x).1.state = true := by
+  rw [C13_state_during_teardown, hs]
+  rfl
+
 end Asphalt
